@@ -213,7 +213,18 @@ func runC17(t *Trace, r *Rng, tier string, _ []string) {
 				so = append(so, sf)
 			}
 			so = append(so, &search.SortDocID{Desc: r.Bool()})
-			req.SortByCustom(so)
+			switch x := r.Intn(100); {
+			case x < 12:
+				// an explicitly empty sort order ("no sort keys": hits in index order), which is not the same
+				// request as one without a sort (score descending)
+				req.SortByCustom(search.SortOrder{})
+				t.Add("requests_with_empty_sort", 1)
+			case x < 22:
+				// no sort given: the default
+				t.Add("requests_with_default_sort", 1)
+			default:
+				req.SortByCustom(so)
+			}
 			var fnames []string
 			if r.Chance(50) {
 				f := bleve.NewFacetRequest("t0", 3+r.Intn(6))
